@@ -10,6 +10,7 @@ from ..ref import deflate_peer
 from . import c04
 
 LEVEL = 'exploration'
+TECHNIQUE = 'metamorphic runtime monitoring: identical server byte stream under enumerated / random read segmentations, event and wire comparison'
 BUDGET_S = {'quick': 35, 'thorough': 280}
 REQUIRED = {'all': ['oracle.variant_runs_compared', 'oracle.exhaustive_cutsets', 'oracle.handshake_cut_pairs']}
 RULE = ('metamorphic: the same server byte stream S is delivered under a reference segmentation (as few '
